@@ -424,7 +424,7 @@ func (f *flakyDS) Put(ctx context.Context, k ds.Key, v []byte) error {
 
 func TestC20(t *testing.T) {
 	c := ev.Get("C20")
-	c.Rule = "stateful model-based generation: 3-30 operations on 1-3 keystore instances sharing one datastore: create(id) (only for ids absent from the model, as every caller does), create with a failing datastore write (must fail and leave the id absent on every instance), get, has, reopen(instance), createBurst(130-300 fresh ids, beyond the 128-entry cache), createIdentity(id) on two instances; ids from a pool with slashes, unicode, spaces, long and hex-like names. Model = map id -> public key. has must be true exactly for created ids (false with an error counts as absent), get must return the created key or an error; identities created twice must be identical (incl. signatures), the id signature must verify under the published key over the id, the public-key signature under the key the id denotes over hex(publicKey || idSignature), and an entry signed with the identity - also through the provider object another identity was created with - must carry and verify under the published key; a final sweep queries every key on every instance and on a brand-new one. Non-trivial = a present id queried on another instance, after a reopen or after eviction (burst); distinct = distinct program. A quarter of the create / get operations end with the caller wiping the key object it was handed."
+	c.Rule = "stateful model-based generation: 3-30 operations on 1-3 keystore instances sharing one datastore: create(id) (only for ids absent from the model, as every caller does), create with a failing datastore write (must fail and leave the id absent on every instance), get, has, reopen(instance), createBurst(130-300 fresh ids, beyond the 128-entry cache), createIdentity(id) on two instances; ids from a pool with slashes, unicode, spaces, long and hex-like names. Model = map id -> public key. has must be true exactly for created ids (false with an error counts as absent), get must return the created key or an error; identities created twice must be identical (incl. signatures), the id signature must verify under the published key over the id, the public-key signature under the key the id denotes over hex(publicKey || idSignature), and an entry signed with the identity - also through the provider object another identity was created with - must carry and verify under the published key; a final sweep queries every key on every instance and on a brand-new one. Non-trivial = a present id queried on another instance, after a reopen or after eviction (burst); distinct = distinct program. A quarter of the create / get operations end with the caller wiping the key object it was handed. In a third of the programs the caller keeps ONE CreateIdentityOptions value for every identity it creates, identities of a keystore over another datastore included."
 	c.Assumptions = []string{"no two ids of the pool alias under the datastore's key cleaning (the pool has one id with a leading and one with a trailing slash, but not their cleaned twins; double slashes and dot segments are left out): the datastore cleans key paths, so ids that clean to the same path are one key by construction", "create is only issued for ids that do not exist (CreateKey overwrites by design)"}
 	ev.Check(t, "C20", genC20, runC20)
 }
